@@ -16,7 +16,7 @@ SPEC = {
     "rule": "case = generated PROGRAM over BOOL + the 8 integer kinds with := IF CASE FOR WHILE REPEAT EXIT CONTINUE RETURN (stage S1+S2, 35 %), with 1-3 user FUNCTIONs (S4, 25 %: positional / formal calls, defaults, OUT, IN_OUT), with FUNCTION_BLOCK types and instances with state (S5, 20 %) or with one-dimensional arrays and flat structs (S3, 20 %); profiles strict / natural / wild, optionally ill-typed in exactly one place; x 3 scan cycles with input writes between cycles; plus on every run the witnesses of the recorded findings and an exhaustive 657-program matrix over all type pairs (assignment, one operator per class, unary operators, FOR control/bound, CASE selector/label); non-trivial = accepted by the real compiler and at least one cycle completed; distinct = by hash of the case's operation lines",
     "trusted_base": COMMON_TRUSTED,
     "assumptions": [
-        "ST-core fragment only: stages S1+S2 proved; S3 (1-D arrays, flat structs as PROGRAM variables), S4 (FUNCTION calls) and S5 (FB instances as PROGRAM variables) modelled and compared, frame balance proved; nested aggregates, FB instances inside FBs/functions, EN/ENO, methods, strings, REAL, time/date, references, OOP, standard functions are not modelled",
+        "ST-core fragment only: stages S1+S2 and S3 (1-D arrays, flat structs as PROGRAM variables) proved; S4 (FUNCTION calls) and S5 (FB instances as PROGRAM variables) modelled and compared, frame balance proved; nested aggregates, FB instances inside FBs/functions, EN/ENO, methods, strings, REAL, time/date, references, OOP, standard functions are not modelled",
         "the program runs as the single background PROGRAM instance (TestHarness::from_source), no tasks, no I/O bindings",
     ],
 }
@@ -26,6 +26,6 @@ replay = make_replay("C03")
 
 MANIFEST = {
     "technique": 'Lean 4 invariant proof (store typing preserved by every statement, FOR control update and well-typed input write, at every cycle boundary incl. after faulted cycles) under a decidable guard + counterexamples + differential correspondence + tag/range oracle on the real storage dump',
-    "level_text": "StoreWT: every declared variable holds a value whose runtime tag is the declared type and whose magnitude is in range. Proved in Lean: c03_init (the initial store is well typed), c03_for_control_keeps_tag (coerce_loop_value never changes the tag — every program), c03_preserved_partial / c03_every_cycle_partial (inside the guard Strict, for every well-typed input trace, every budget and every cycle index the store at the cycle boundary is well typed, after completed and after faulted cycles), c03_envWT_sound (the oracle's executable check implies the invariant); four c03_counterexample_* theorems show the full statement is FALSE of the code as it is (Stmt::Assign stores the value as is; untyped literals are DINT; widening stores the narrower tag; out-of-range literals; BOOL into an integer through the unchecked CASE ELSE) and c03_repair_restores_invariant shows the modelled write-path repair restores it on the witnesses. Every run: correspondence as for C01 and the oracle checks tag = declared type and range on the implementation's dump of every program variable after every cycle; only the exact signature 'integer of another kind in an integer slot' (and the CASE-ELSE hole) is a recorded finding, everything else is a violation.",
-    "level_note": "Proved for stages S1+S2 inside Strict; array elements and struct fields (S3), FUNCTION parameter passing / OUT write-back (S4) and FB instance variables incl. un-coerced input binding (S5) are modelled, compared and judged by the oracle (every element, field and instance variable in the dump) but not proved. I/O latching, debugger writes and restart are represented only as writes of well-typed values between cycles (InputsWT); the real coerce_from_io / restart paths are not modelled (restart is C09's). The theorems are about the hand-written models, tied to /repo by the differential run.",
+    "level_text": "StoreWT: every declared variable — and every array element and struct field — holds a value whose runtime tag is the declared type and whose magnitude is in range. Proved in Lean (stages S1-S3): c03_init (the initial store is well typed), c03_for_control_keeps_tag (coerce_loop_value never changes the tag — every program), c03_preserved_partial / c03_every_cycle_partial (inside the guard Strict, for every well-typed input trace, every budget and every cycle index the store at the cycle boundary is well typed, after completed and after faulted cycles), c03_envWT_sound (the oracle's executable check implies the invariant); three c03_counterexample_* theorems show the full statement is FALSE of the code as it is (Stmt::Assign stores the value as is; untyped literals are DINT; widening stores the narrower tag; out-of-range literals; the BOOL-into-integer path through the unchecked CASE ELSE is closed since 22a8b8f — c03_case_else_now_rejected) and c03_repair_restores_invariant shows the modelled write-path repair restores it on the witnesses. Every run: correspondence as for C01 and the oracle checks tag = declared type and range on the implementation's dump of every program variable after every cycle; only the exact signature 'integer of another kind in an integer slot' is a recorded finding, everything else is a violation.",
+    "level_note": "Proved for stages S1+S2 and S3 (array elements and struct fields are slots of the typed store; the model keeps them flattened, one slot per element/field) inside Strict; FUNCTION parameter passing / OUT write-back (S4) and FB instance variables incl. un-coerced input binding (S5) are modelled, compared and judged by the oracle (every instance variable in the dump) but not proved. I/O latching, debugger writes and restart are represented only as writes of well-typed values between cycles (InputsWT); the real coerce_from_io / restart paths are not modelled (restart is C09's). The theorems are about the hand-written models, tied to /repo by the differential run.",
 }
